@@ -9,7 +9,9 @@ package centrifuge
 
 import (
 	"bufio"
+	"context"
 	"fmt"
+	"runtime"
 	"os"
 	"strconv"
 	"strings"
@@ -113,6 +115,156 @@ func verifC13Add(ws []string) (queue.Item, ChannelBatchConfig, bool) {
 	return it, cfg, true
 }
 
+// verifC13Gate blocks the goroutine that reaches it (once) until released.  It is installed in the
+// application's LogHandler: at trace level Client.writePublication logs the outgoing push
+// ("-out->") after its subscribed check and right before it hands the push to
+// perChannelWriter.Add, so the log callback is a hook exactly inside the window.
+type verifC13Gate struct {
+	armed   chan struct{} // closed = gate armed
+	reached chan struct{}
+	release chan struct{}
+	once    sync.Once
+}
+
+func (g *verifC13Gate) pass() {
+	select {
+	case <-g.armed:
+		first := false
+		g.once.Do(func() { first = true })
+		if first {
+			close(g.reached)
+			<-g.release
+		}
+	default:
+	}
+}
+
+// verifC13Race: a broadcast that already found the connection among the channel's subscribers is
+// held in the trace-log callback while the client's unsubscribe command runs up to (and including)
+// delWriter; then the broadcast continues into perChannelWriter.Add.  Reports what the transport
+// received after the unsubscribe reply.
+func verifC13Race(delayMs int) (res string) {
+	defer func() {
+		if r := recover(); r != nil {
+			res = fmt.Sprintf("PANIC %v", r)
+		}
+	}()
+	tr := &verifC13Gate{armed: make(chan struct{}), reached: make(chan struct{}), release: make(chan struct{})}
+	node, err := New(Config{
+		LogLevel: LogLevelTrace,
+		LogHandler: func(entry LogEntry) {
+			if entry.Message == "-out->" {
+				if p, ok := entry.Fields["push"].(string); ok && strings.Contains(p, "late") {
+					tr.pass()
+				}
+			}
+		},
+		GetChannelBatchConfig: func(channel string) ChannelBatchConfig {
+			return ChannelBatchConfig{MaxDelay: time.Duration(delayMs) * time.Millisecond}
+		},
+	})
+	if err != nil {
+		return "race-setup-failed"
+	}
+	node.OnConnect(func(client *Client) {
+		client.OnSubscribe(func(e SubscribeEvent, cb SubscribeCallback) { cb(SubscribeReply{}, nil) })
+	})
+	if err := node.Run(); err != nil {
+		return "race-setup-failed"
+	}
+	defer func() {
+		_ = node.Shutdown(context.Background())
+		time.Sleep(30 * time.Second)
+		synctest.Wait()
+	}()
+	ctx, cancelFn := context.WithCancel(context.Background())
+	tt := newTestTransport(cancelFn)
+	tt.setProtocolVersion(ProtocolVersion2)
+	tt.setProtocolType(ProtocolTypeJSON)
+	sink := make(chan []byte, 1000)
+	tt.setSink(sink)
+	c, _, err := NewClient(SetCredentials(ctx, &Credentials{UserID: "u"}), node, tt)
+	if err != nil {
+		return "race-setup-failed"
+	}
+	rw := testReplyWriterWrapper()
+	if err := c.connectCmd(&protocol.ConnectRequest{}, &protocol.Command{Id: 1}, time.Now(), rw.rw); err != nil {
+		return "race-setup-failed"
+	}
+	c.triggerConnect()
+	c.scheduleOnConnectTimers()
+	rw = testReplyWriterWrapper()
+	if err := c.handleSubscribe(&protocol.SubscribeRequest{Channel: "ch"}, &protocol.Command{Id: 2}, time.Now(), rw.rw); err != nil {
+		return "race-setup-failed"
+	}
+	synctest.Wait()
+	close(tr.armed)
+	pubDone := make(chan struct{})
+	go func() {
+		_, _ = node.Publish("ch", []byte(`{"verif":"late"}`))
+		close(pubDone)
+	}()
+	<-tr.reached // the broadcast holds the hub shard lock and is about to hand the push to the channel writer
+	unsubDone := make(chan struct{})
+	go func() {
+		urw := testReplyWriterWrapper()
+		_ = c.handleUnsubscribe(&protocol.UnsubscribeRequest{Channel: "ch"}, &protocol.Command{Id: 3}, time.Now(), urw.rw)
+		close(unsubDone)
+	}()
+	// wait (without the virtual clock: the unsubscribe goroutine ends up blocked on the hub mutex,
+	// which is not a durable block) until the unsubscribe has removed the channel and its writer
+	for {
+		c.mu.RLock()
+		_, still := c.channels["ch"]
+		c.mu.RUnlock()
+		if !still {
+			break
+		}
+		runtime.Gosched()
+	}
+	close(tr.release)
+	<-pubDone
+	<-unsubDone
+	synctest.Wait()
+	time.Sleep(time.Duration(delayMs+5) * time.Millisecond)
+	synctest.Wait()
+	var msgs []string
+	for {
+		select {
+		case m := <-sink:
+			msgs = append(msgs, string(m))
+			continue
+		default:
+		}
+		break
+	}
+	unsubAt, lateAt := -1, -1
+	for i, m := range msgs {
+		if strings.Contains(m, `"unsubscribe"`) && strings.Contains(m, `"id":3`) {
+			unsubAt = i
+		}
+		if strings.Contains(m, `late`) {
+			lateAt = i
+		}
+	}
+	after := 0
+	if unsubAt >= 0 && lateAt > unsubAt {
+		after = 1
+	}
+	got := 0
+	if lateAt >= 0 {
+		got = 1
+	}
+	ur := 0
+	if unsubAt >= 0 {
+		ur = 1
+	}
+	if os.Getenv("VERIF_C13_DEBUG") != "" {
+		fmt.Fprintf(os.Stderr, "race msgs: %q\n", msgs)
+	}
+	return fmt.Sprintf("race unsub_reply=%d pub_delivered=%d pub_after_unsub=%d", ur, got, after)
+}
+
 func (h *verifC13H) step(ws []string) (res string) {
 	defer func() {
 		if r := recover(); r != nil {
@@ -123,6 +275,14 @@ func (h *verifC13H) step(ws []string) (res string) {
 		return "bad-op"
 	}
 	switch ws[0] {
+	case "race":
+		d := 10
+		if len(ws) == 2 {
+			if n, err := strconv.Atoi(ws[1]); err == nil && n > 0 {
+				d = n
+			}
+		}
+		return verifC13Race(d)
 	case "reset":
 		if h.pcw != nil {
 			h.pcw.Close(false)
